@@ -8,12 +8,15 @@ import (
 	"bytes"
 	"encoding/json"
 	"fmt"
+	"io"
 	"math"
 	"math/big"
 	"os"
 	"runtime"
 	"sort"
 	"strings"
+	"testing/iotest"
+	"time"
 
 	"verif/harness/hx"
 	"verif/harness/internal/plyx"
@@ -45,6 +48,10 @@ type Desc struct {
 	Kind    string   `json:"kind"` // default | default-nounspec | custom
 	Writers []Writer `json:"writers,omitempty"`
 	Unspec  bool     `json:"unspec"`
+	// how the written file is handed to ply.ReadMesh: "" (bytes.Reader), onebyte, half, dataerr, chunk (short reads)
+	Via string `json:"via,omitempty"`
+	// material of the mesh: "" none, "-" a material without texture, else the colour texture URI (TextureFile comment)
+	Texture string `json:"texture,omitempty"`
 }
 
 var tyOf = map[string]ply.ScalarPropertyType{"char": ply.Char, "uchar": ply.UChar, "short": ply.Short, "ushort": ply.UShort,
@@ -319,6 +326,82 @@ func hasAttr(d Desc, dim int, name string) bool {
 	return false
 }
 
+// chunkReader hands out the data in short reads of varying length (a legal io.Reader)
+type chunkReader struct {
+	r    io.Reader
+	k, m uint64
+}
+
+func (c *chunkReader) Read(p []byte) (int, error) {
+	c.k = c.k*6364136223846793005 + 1442695040888963407
+	n := int((c.k>>33)%c.m) + 1
+	if n > len(p) {
+		n = len(p)
+	}
+	return c.r.Read(p[:n])
+}
+
+func viaReader(data []byte, via string) io.Reader {
+	var r io.Reader = bytes.NewReader(data)
+	switch via {
+	case "onebyte":
+		return iotest.OneByteReader(r)
+	case "half":
+		return iotest.HalfReader(r)
+	case "dataerr":
+		return iotest.DataErrReader(r)
+	case "chunk":
+		return &chunkReader{r: r, k: uint64(len(data)), m: 61}
+	case "bigchunk":
+		return &chunkReader{r: r, k: uint64(len(data)), m: 8191}
+	}
+	return r
+}
+
+func readVia(data []byte, via string) plyx.Outcome {
+	if via == "" {
+		return plyx.SafeRead(data)
+	}
+	return plyx.Guard(5*time.Second, func() (*modeling.Mesh, error) { return ply.ReadMesh(viaReader(data, via)) })
+}
+
+// stripTextureComment removes `comment TextureFile ...` header lines (written for a mesh with a textured material;
+// the model's header has the single `Created with` comment)
+func stripTextureComment(data []byte) []byte {
+	end := bytes.Index(data, []byte("end_header\n"))
+	if end < 0 {
+		return data
+	}
+	var out []byte
+	for _, l := range bytes.SplitAfter(data[:end], []byte("\n")) {
+		if !bytes.HasPrefix(l, []byte("comment TextureFile ")) {
+			out = append(out, l...)
+		}
+	}
+	return append(out, data[end:]...)
+}
+
+// a file of another mesh, read again between reading a case's files and looking at the returned meshes: results
+// must not share storage with later calls
+var decoyFile []byte
+
+func decoyRead() {
+	if decoyFile != nil {
+		plyx.SafeRead(decoyFile)
+	}
+}
+
+func withMaterial(m modeling.Mesh, tex string) modeling.Mesh {
+	switch tex {
+	case "":
+		return m
+	case "-":
+		return m.SetMaterial(modeling.Material{Name: "plain"})
+	}
+	uri := tex
+	return m.SetMaterial(modeling.Material{Name: "textured", ColorTextureURI: &uri})
+}
+
 func makeCase(d Desc) []hx.Case {
 	c := hx.Case{Kind: "mesh", Desc: d}
 	var classes [3]string
@@ -326,20 +409,31 @@ func makeCase(d Desc) []hx.Case {
 		d.Writers = nil
 		d.Unspec = d.Kind == "default"
 	}
-	m := buildMesh(d)
+	m := withMaterial(buildMesh(d), d.Texture)
 	var wres, outs [3]string
+	var files [3][]byte
+	var wclass, wmsg [3]string
+	var read [3]plyx.Outcome
+	// first everything the implementation does (three writes, three reads, one unrelated read), then the rendering:
+	// a result that shares storage with a later call would have changed by then
 	for k, f := range []ply.Format{ply.ASCII, ply.BinaryLittleEndian, ply.BinaryBigEndian} {
-		data, class, msg := writeOne(d, m, f)
-		switch class {
+		files[k], wclass[k], wmsg[k] = writeOne(d, m, f)
+		if wclass[k] == "file" {
+			read[k] = readVia(files[k], d.Via)
+		}
+	}
+	decoyRead()
+	for k := range files {
+		switch wclass[k] {
 		case "file":
-			file, ok := plyx.FileCoq(data)
+			file, ok := plyx.FileCoq(stripTextureComment(files[k]))
 			if !ok {
 				c.GoFail = "written file has no parsable header"
 				c.FailKey = "ply:write-no-header"
 				file = "{| pf_header := []; pf_body := BodyBin [] |}"
 			}
 			wres[k] = "(WFile " + file + ")"
-			out := plyx.SafeRead(data)
+			out := read[k]
 			outs[k] = plyx.OutcomeCoq(out)
 			classes[k] = out.Class
 			if os.Getenv("VERIF_DEBUG") != "" {
@@ -352,14 +446,17 @@ func makeCase(d Desc) []hx.Case {
 		case "declared":
 			wres[k], outs[k] = "WDeclared", "ODeclared"
 			if os.Getenv("VERIF_DEBUG") != "" {
-				fmt.Fprintf(os.Stderr, "fmt %d: write declared: %s\n", k, msg)
+				fmt.Fprintf(os.Stderr, "fmt %d: write declared: %s\n", k, wmsg[k])
 			}
 		default:
 			wres[k], outs[k] = "WCrash", "OCrash"
 			if os.Getenv("VERIF_DEBUG") != "" {
-				fmt.Fprintf(os.Stderr, "fmt %d: write crash: %s\n", k, msg)
+				fmt.Fprintf(os.Stderr, "fmt %d: write crash: %s\n", k, wmsg[k])
 			}
 		}
+	}
+	if wclass[2] == "file" && len(files[2]) < 1<<16 {
+		decoyFile = files[2]
 	}
 	// sanity of the generator itself: float32-exact values only
 	for _, a := range d.Attrs {
@@ -423,7 +520,7 @@ func genCoord(r *hx.Rng) float64 {
 	case 4:
 		return math.Copysign(0, -1)
 	case 5:
-		return f32(Pick64(r, []float64{1e20, -1e20, 1e-20, 3.4e38, 1.5e-45, 16777216, 16777217, 2147483648, -2147483648, 4294967296, 0.1}))
+		return f32(Pick64(r, floatSpecials))
 	case 6:
 		return float64(r.Range(-100000, 100000))
 	default:
@@ -431,6 +528,13 @@ func genCoord(r *hx.Rng) float64 {
 	}
 }
 func Pick64(r *hx.Rng, xs []float64) float64 { return xs[r.Intn(len(xs))] }
+
+// magnitudes at the edges of the number-text path (all converted with float32()): beyond int32 / int64 / uint64, the
+// largest and smallest normal and denormal float32, whole numbers with many digits, values that print with exponents in
+// other formats
+var floatSpecials = []float64{1e20, -1e20, 1e-20, 3.4e38, -3.4028234663852886e38, 1.5e-45, -1.5e-45, 1.1754942e-38, 1.17549435e-38, -1e-38,
+	16777216, 16777217, 2147483648, -2147483648, 4294967296, 9223372036854775808, -9223372036854775808, 9223371487098961920,
+	18446744073709551616, 1e19, 1e30, -1e30, 1e15, 123456789012, 1e-7, 0.1, 5e-324}
 
 func genUnit(r *hx.Rng) float64 {
 	switch r.Intn(8) {
@@ -743,6 +847,12 @@ func genDesc(r *hx.Rng) Desc {
 			genCustom(r, &d)
 		}
 	}
+	if r.Chance(1, 3) {
+		d.Via = hx.Pick(r, []string{"onebyte", "half", "dataerr", "chunk"})
+	}
+	if r.Chance(1, 6) {
+		d.Texture = hx.Pick(r, []string{"-", "tex.png", "dir/my texture.jpg"})
+	}
 	// every configuration must write at least one vertex property (see carriedProps)
 	if carriedProps(d) == 0 {
 		if hasAttr(d, 3, "Position") {
@@ -1026,6 +1136,21 @@ func corner() []Desc {
 			Desc{Topo: "point", N: 2, Idx: []int{0, 1}, Kind: "default", Attrs: []Attr{{3, "Position", [][]float64{{1, 2, 3}, {4, 5, 6}}}, {2, "TexCoord", [][]float64{{0, 1}, {1, 0}}}}},
 			Desc{Topo: "triangle", N: 3, Idx: []int{0, 1, 2}, Kind: "default", Attrs: []Attr{{2, "TexCoord", [][]float64{{0, 1}, {1, 0}, {1, 1}}}}})
 	}
+	// the number-text path at the edges of the float32 range: beyond int32 / int64 / uint64, largest and smallest
+	// normal and denormal magnitudes, -0, in a scalar, a vector and per-corner texture coordinates; read through short reads
+	big := func(x float64) float64 { return float64(float32(x)) }
+	out = append(out,
+		Desc{Topo: "point", N: 4, Idx: []int{0, 1, 2, 3}, Kind: "default", Via: "onebyte", Texture: "tex.png",
+			Attrs: []Attr{{3, "Position", [][]float64{{big(1e20), big(-1e30), 9223372036854775808}, {-9223372036854775808, 18446744073709551616, big(3.4028234663852886e38)},
+				{big(1.5e-45), big(-1.1754942e-38), big(1.17549435e-38)}, {math.Copysign(0, -1), 9223371487098961920, big(1e19)}}},
+				{1, "Opacity", [][]float64{{big(1e30)}, {-9223372036854775808}, {big(-1.5e-45)}, {4294967296}}},
+				{1, "Intensity", [][]float64{{9223372036854775808}, {big(-3.4028234663852886e38)}, {big(1e-38)}, {2147483648}}},
+				{2, "TexCoord", [][]float64{{big(1e20), 9223372036854775808}, {big(-1e30), big(1.5e-45)}, {0.5, math.Copysign(0, -1)}, {18446744073709551616, 1}}},
+				{4, "Weight", [][]float64{{1, big(1e25), -9223372036854775808, 0}, {big(1e-30), 2, 3, 4}, {5, 6, 7, big(-1e19)}, {big(1e38), 9, 10, 11}}}}},
+		Desc{Topo: "triangle", N: 3, Idx: []int{0, 1, 2, 2, 1, 0}, Kind: "default", Via: "chunk",
+			Attrs: []Attr{{3, "Position", [][]float64{{0, 0, big(1e20)}, {1, 0, 9223372036854775808}, {0, 1, big(-1e30)}}},
+				{3, "Normal", [][]float64{{big(1e-40), 0, 1}, {0, big(-1e19), 1}, {18446744073709551616, 0, 1}}},
+				{2, "TexCoord", [][]float64{{9223372036854775808, big(-1e20)}, {big(1e30), big(1.5e-45)}, {-9223372036854775808, big(3.4e38)}}}}})
 	return out
 }
 
@@ -1077,6 +1202,12 @@ func main() {
 		run.Count(fmt.Sprintf("attrs:%d", len(d.Attrs)))
 		if hasAttr(d, 2, "TexCoord") {
 			run.Count("with-texcoord")
+		}
+		if d.Via != "" {
+			run.Count("read-via:" + d.Via)
+		}
+		if d.Texture != "" {
+			run.Count("with-material")
 		}
 		if hasAttr(d, 3, "Color") {
 			run.Count("with-colour")
